@@ -837,9 +837,48 @@ impl CrashSpec for PlainOps {
     }
 }
 
+// ---- MmapVec re-created over an older, longer file ----------------------------------------------------
+
+struct MmapVecRecreate;
+impl CrashSpec for MmapVecRecreate {
+    fn name(&self) -> String {
+        "MmapVec<u64>: create(cap 64), push x40, sync, drop; create(cap 16) over the same path, push, sync".into()
+    }
+    fn describe(&self) -> String {
+        "a vector file is re-created (smaller) over an older, longer one: between create() and the first sync the path must hold nothing that reopens as a vector which never existed".into()
+    }
+    fn sector_sizes(&self, _tier: zverif::Tier) -> Vec<usize> {
+        vec![512, 64]
+    }
+    fn run_history(&self, dir: &Path, rec: &mut Recorder) -> Result<(), String> {
+        let p = dir.join("v.mmapvec");
+        {
+            let cfg = MmapVecConfig::builder().with_initial_capacity(64).build();
+            let mut v: MmapVec<u64> = MmapVec::create(&p, cfg).map_err(es)?;
+            for i in 0..40u64 {
+                v.push(0xA5A5_A5A5_A5A5_A500 + i).map_err(es)?;
+            }
+            v.sync().map_err(es)?;
+            rec.sync_point(mv_state(&v));
+        }
+        let cfg = MmapVecConfig::builder().with_initial_capacity(16).build();
+        let mut v: MmapVec<u64> = MmapVec::create(&p, cfg).map_err(es)?;
+        rec.op_boundary(mv_state(&v));
+        v.push(0x0101_0101_0101_0101).map_err(es)?;
+        rec.op_boundary(mv_state(&v));
+        v.sync().map_err(es)?;
+        rec.sync_point(mv_state(&v));
+        Ok(())
+    }
+    fn reopen(&self, dir: &Path) -> Result<Vec<u8>, String> {
+        MmapVecHist.reopen(dir)
+    }
+}
+
 fn main() {
     zverif::main_with("C19", |reg, _tier| {
         reg.add(Crash { spec: MmapVecHist, shim: &SHIM });
+        reg.add(Crash { spec: MmapVecRecreate, shim: &SHIM });
         reg.add(Crash { spec: PlainHist, shim: &SHIM });
         reg.add(Crash { spec: ZipOffsetHist { compress: 0, checksum: 2, offsets: "default", big: false, over_existing: false }, shim: &SHIM });
         reg.add(Crash { spec: ZipOffsetHist { compress: 3, checksum: 3, offsets: "default", big: false, over_existing: false }, shim: &SHIM });
